@@ -144,7 +144,7 @@ func main() {
 			add("idle", func(cl *client) { cl.roundtrip(time.Second, "PING") })
 		}
 		add("mid-pipeline", func(cl *client) {
-			cl.c.Write(cmd("SET", "a", "1"))
+			cl.roundtrip(time.Second, "SET", "a", "1")
 			cl.c.Write([]byte("*3\r\n$3\r\nSET\r\n$1\r\nb\r\n$10\r\nabc")) // incomplete command left in the buffer
 		})
 		add("inside MULTI", func(cl *client) {
@@ -180,14 +180,29 @@ func main() {
 		// old connections: no data may be read or modified any more
 		time.Sleep(50 * time.Millisecond)
 		for _, a := range append(actors, actor{"probe (idle)", probe}) {
-			line, err := a.cl.roundtrip(600*time.Millisecond, "GET", "k")
-			served := err == nil && (strings.HasPrefix(line, "$") || strings.HasPrefix(line, "+QUEUED"))
-			if a.name == "inside MULTI" && err == nil && strings.HasPrefix(line, "+QUEUED") {
-				l2, e2 := a.cl.roundtrip(600*time.Millisecond, "EXEC")
-				served = e2 == nil && strings.HasPrefix(l2, "*")
+			// whatever the emulator still sends (the error that ends a blocked command), the connection
+			// must reach its end: nothing asked now may be answered, and the socket must be closed
+			a.cl.c.SetDeadline(time.Now().Add(1500 * time.Millisecond))
+			a.cl.c.Write(cmd("GET", "k"))
+			a.cl.c.Write(cmd("SET", "k", "after-close"))
+			var got []byte
+			buf := make([]byte, 4096)
+			var rerr error
+			for {
+				n, err := a.cl.r.Read(buf)
+				got = append(got, buf[:n]...)
+				if err != nil {
+					rerr = err
+					break
+				}
 			}
-			if served {
-				fail(cycle, scenario, fmt.Sprintf("after Close the old %q connection is still served: GET k -> %q", a.name, line))
+			text := string(got)
+			if strings.Contains(text, fmt.Sprintf("cycle%d", cycle)) || strings.Contains(text, "+OK") || strings.Contains(text, "+QUEUED") {
+				fail(cycle, scenario, fmt.Sprintf("after Close the old %q connection is still served: GET k / SET k -> %q", a.name, text))
+				break
+			}
+			if ne, ok := rerr.(net.Error); ok && ne.Timeout() {
+				fail(cycle, scenario, fmt.Sprintf("after Close the old %q connection is still open 1.5 s later (received %q, then nothing: neither data nor end of stream)", a.name, text))
 				break
 			}
 			stats["old_connections_checked"]++
